@@ -266,6 +266,13 @@ __CPROVER_ensures(__CPROVER_return_value == 0 || __CPROVER_return_value == S_ERR
 __CPROVER_ensures((S_BC(h) >= 122) == (__CPROVER_return_value == S_ERR_CELL_INVALID))
 __CPROVER_ensures(fijk->face >= 0 && fijk->face <= 19)
 __CPROVER_ensures(__CPROVER_return_value == S_ERR_CELL_INVALID ==> (fijk->face == 0 && fijk->coord.i == 0 && fijk->coord.j == 0 && fijk->coord.k == 0));
+/* _adjustOverageClassII on ANY coordinates: entered with a face 0..19 and a Class II resolution index 0..16 it reads its tables in bounds and
+ * leaves a face 0..19 (enforced on the real function; also discharges the face-range half of C19's assumed helper contract) */
+Overage _adjustOverageClassII_safe(FaceIJK *fijk, int res, int pentLeading4, int substrate)
+__CPROVER_requires(__CPROVER_rw_ok(fijk, sizeof(FaceIJK)) && fijk->face >= 0 && fijk->face <= 19 && res >= 0 && res <= 16)
+__CPROVER_assigns(*fijk)
+__CPROVER_ensures(fijk->face >= 0 && fijk->face <= 19)
+__CPROVER_ensures(__CPROVER_return_value == NO_OVERAGE || __CPROVER_return_value == FACE_EDGE || __CPROVER_return_value == NEW_FACE);
 /* the invalid-base-cell clause alone (partial contract: precondition = base-cell number 122..127); cheap, quick tier */
 H3Error _h3ToFaceIjk_badbc(H3Index h, FaceIJK *fijk)
 __CPROVER_requires(__CPROVER_is_fresh(fijk, sizeof(FaceIJK)) && S_BC(h) >= 122)
